@@ -8,6 +8,12 @@ Record case := {
                              (by ascending address) and each beacon node *)
 }.
 
+(* compact printing of the usual shapes (the harness falls back to the constructors otherwise):
+   a registration whose signature is over its own message, and a signing request *)
+Definition R (f g p t a : N) : sreg :=
+  Build_sreg (Build_content f g p) t (Build_sig a (Build_content f g p) t).
+Definition Q (a f g p t : N) (ok : bool) : sigreq := Build_sigreq a (Build_content f g p) t ok.
+
 (* ------------------------------------------------------------------------------------------- *)
 (* agree: the model's outputs are the observed ones. *)
 
